@@ -73,3 +73,10 @@ impl SliceConstructor {
         Ok(None)
     }
 }
+
+#[cfg(feature = "verif")]
+impl SliceConstructor {
+    pub(crate) fn verif_received(&self) -> Vec<bool> {
+        self.received.clone()
+    }
+}
